@@ -217,7 +217,7 @@ Qed.
 Section ModelWire.
   Variables (d : desc) (g : graph) (c : compiled) (ri : rinfo) (n : netlist).
   Variable nt : net.
-  Hypothesis Hnt : nt = Req \/ nt = Rsp.
+  Hypothesis Hnt : net_ok d nt.
   Hypothesis Hb : build d = Ok g.
   Hypothesis Hc : compile d g = Ok c.
   Hypothesis He : emit c ri = Ok n.
@@ -291,9 +291,9 @@ Section ModelWire.
     nth_error (rt_outs nt x) k = Some sl -> In s sl ->
     exists l, nth_error (cr_out r) k = Some (Some l) /\ sl = [flow nt l].
   Proof.
-    intros Hr Hx Hk Hs. destruct (emitted_rt c ri n He Hnd r Hr) as (x' & Hx' & _ & _ & O1 & _ & O2 & _).
+    intros Hr Hx Hk Hs. destruct (emitted_rt c ri n He Hnd r Hr) as (x' & Hx' & _ & _ & O1 & _ & O2 & _ & O3 & _).
     rewrite Hx in Hx'. inversion Hx'; subst x'. destruct (crt_facts d g c Hb Hc r Hr) as (Hp & _).
-    destruct Hnt as [-> | ->]; cbn [rt_outs] in Hk.
+    destruct Hnt as [-> | [-> | (-> & Hnw)]]; cbn [rt_outs] in Hk.
     - rewrite O1 in Hk. unfold out_sig in Hk. rewrite nth_error_map in Hk.
       destruct (nth_error (cr_out r) k) as [o|]; [|discriminate]. cbn in Hk. inversion Hk; subst sl.
       destruct o as [l|]; [|destruct Hs]. exists l. auto.
@@ -301,16 +301,20 @@ Section ModelWire.
       destruct (nth_error (cr_in r) k) as [o|] eqn:Eo; [|discriminate]. cbn in Hk. inversion Hk; subst sl.
       destruct o as [l|]; [|destruct Hs]. exists (rev_link l). split; [apply (Forall2_paired_fwd _ _ _ _ Hp Eo)|].
       destruct l; reflexivity.
+    - rewrite O3, Hcd, Hnw in Hk. unfold out_sig in Hk. rewrite nth_error_map in Hk.
+      destruct (nth_error (cr_out r) k) as [o|]; [|discriminate]. cbn in Hk. inversion Hk; subst sl.
+      destruct o as [l|]; [|destruct Hs]. exists l. auto.
   Qed.
 
   Lemma in_slot_fwd r x i l : In r (c_rts c) -> emit_rt (c_desc c) ri r = Ok x ->
     nth_error (cr_in r) i = Some (Some l) -> nth_error (rt_ins nt x) i = Some [SSig (flow nt l)].
   Proof.
-    intros Hr Hx Hi. destruct (emitted_rt c ri n He Hnd r Hr) as (x' & Hx' & _ & _ & _ & I1 & _ & I2).
+    intros Hr Hx Hi. destruct (emitted_rt c ri n He Hnd r Hr) as (x' & Hx' & _ & _ & _ & I1 & _ & I2 & _ & I3).
     rewrite Hx in Hx'. inversion Hx'; subst x'. destruct (crt_facts d g c Hb Hc r Hr) as (Hp & _).
-    destruct Hnt as [-> | ->]; cbn [rt_ins].
+    destruct Hnt as [-> | [-> | (-> & Hnw)]]; cbn [rt_ins].
     - rewrite I1. unfold in_src. rewrite nth_error_map, Hi. reflexivity.
     - rewrite I2. unfold in_src. rewrite nth_error_map, (Forall2_paired_fwd _ _ _ _ Hp Hi). destruct l; reflexivity.
+    - rewrite I3, Hcd, Hnw. unfold in_src. rewrite nth_error_map, Hi. reflexivity.
   Qed.
 
   Lemma rts_nodup : NoDup (n_rts n).
@@ -378,7 +382,8 @@ Section ModelWire.
     snd (attach_in x) = cn_name x /\ is_link_of g (attach_in x).
   Proof.
     intros Hx. destruct (compile_ni_links d g c Hc x Hx) as (M1 & M2 & S1 & S2). unfold attach_in.
-    destruct Hnt as [-> | ->]; cbn [ni_in emit_ni ni_req_i ni_rsp_i].
+    destruct Hnt as [-> | [-> | (-> & Hnw)]]; cbn [ni_in emit_ni ni_req_i ni_rsp_i ni_wide_i];
+      [| |rewrite Hcd, Hnw; split; [reflexivity|]; split; [exact S1|exact S2]].
     - split; [reflexivity|]. split; [exact S1|exact S2].
     - split; [destruct (cn_mgr_link x); reflexivity|]. split; [destruct (cn_mgr_link x); exact M1|].
       destruct (cn_mgr_link x) as [a b]. apply link_sym. exact M2.
@@ -387,19 +392,23 @@ Section ModelWire.
   (* the attachment of an interface is the link that touches it *)
   Lemma attach_of_link x u v : In x (c_nis c) -> is_link_of g (u, v) -> cn_name x = u -> attach nt x = (u, v).
   Proof.
-    intros Hx Hl Hu. unfold attach. destruct Hnt as [-> | ->].
-    - destruct Hl as (e & Hin & Hle & Hs & Hd'). cbn in Hs, Hd'.
-      destruct (Hsingle x e Hx Hin Hle) as (H1 & _). rewrite <- (H1 ltac:(congruence)). unfold epair. congruence.
-    - destruct (link_sym _ _ Hl) as (e & Hin & Hle & Hs & Hd'). cbn in Hs, Hd'.
-      destruct (Hsingle x e Hx Hin Hle) as (_ & H2). rewrite <- (H2 ltac:(congruence)). unfold epair, rev_link. cbn. congruence.
+    intros Hx Hl Hu. unfold attach.
+    assert (Hreq : cn_mgr_link x = (u, v)).
+    { destruct Hl as (e & Hin & Hle & Hs & Hd'). cbn in Hs, Hd'.
+      destruct (Hsingle x e Hx Hin Hle) as (H1 & _). rewrite <- (H1 ltac:(congruence)). unfold epair. congruence. }
+    destruct Hnt as [-> | [-> | (-> & Hnw)]]; [exact Hreq| |exact Hreq].
+    destruct (link_sym _ _ Hl) as (e & Hin & Hle & Hs & Hd'). cbn in Hs, Hd'.
+    destruct (Hsingle x e Hx Hin Hle) as (_ & H2). rewrite <- (H2 ltac:(congruence)). unfold epair, rev_link. cbn. congruence.
   Qed.
   Lemma attach_in_of_link x u v : In x (c_nis c) -> is_link_of g (u, v) -> cn_name x = v -> attach_in x = (u, v).
   Proof.
-    intros Hx Hl Hv. unfold attach_in. destruct Hnt as [-> | ->].
-    - destruct Hl as (e & Hin & Hle & Hs & Hd'). cbn in Hs, Hd'.
-      destruct (Hsingle x e Hx Hin Hle) as (_ & H2). rewrite <- (H2 ltac:(congruence)). unfold epair. congruence.
-    - destruct (link_sym _ _ Hl) as (e & Hin & Hle & Hs & Hd'). cbn in Hs, Hd'.
-      destruct (Hsingle x e Hx Hin Hle) as (H1 & _). rewrite <- (H1 ltac:(congruence)). unfold epair, rev_link. cbn. congruence.
+    intros Hx Hl Hv. unfold attach_in.
+    assert (Hreq : cn_sbr_link x = (u, v)).
+    { destruct Hl as (e & Hin & Hle & Hs & Hd'). cbn in Hs, Hd'.
+      destruct (Hsingle x e Hx Hin Hle) as (_ & H2). rewrite <- (H2 ltac:(congruence)). unfold epair. congruence. }
+    destruct Hnt as [-> | [-> | (-> & Hnw)]]; [exact Hreq| |exact Hreq].
+    destruct (link_sym _ _ Hl) as (e & Hin & Hle & Hs & Hd'). cbn in Hs, Hd'.
+    destruct (Hsingle x e Hx Hin Hle) as (H1 & _). rewrite <- (H1 ltac:(congruence)). unfold epair, rev_link. cbn. congruence.
   Qed.
 
   Theorem drivers_single u v : is_link_of g (u, v) ->
@@ -513,15 +522,17 @@ Section ModelWire.
     assert (Hlk : is_link_of g (e_src e, e_dst e)) by (exists e; cbn; auto).
     (* which of the declarations of this edge it is *)
     assert (Hcase : exists u v, is_link_of g (u, v) /\ sname = flow nt (u, v)).
-    { cbn in Hl. destruct Hnt as [-> | ->]; cbn [net_type] in Hl.
+    { cbn in Hl. destruct Hnt as [-> | [-> | (-> & Hnw)]]; cbn [net_type] in Hl.
       - destruct Hl as [Hl|[Hl|Hl]]; [inversion Hl; exists (e_src e), (e_dst e); auto|inversion Hl|].
         destruct (d_nw (c_desc c)); [destruct Hl as [Hl|[]]; inversion Hl|destruct Hl].
       - destruct Hl as [Hl|[Hl|Hl]]; [inversion Hl| |].
         + inversion Hl. exists (e_dst e), (e_src e). split; [apply link_sym; exact Hlk|reflexivity].
-        + destruct (d_nw (c_desc c)); [destruct Hl as [Hl|[]]; inversion Hl|destruct Hl]. }
+        + destruct (d_nw (c_desc c)); [destruct Hl as [Hl|[]]; inversion Hl|destruct Hl].
+      - destruct Hl as [Hl|[Hl|Hl]]; [inversion Hl|inversion Hl|].
+        destruct (d_nw (c_desc c)); [destruct Hl as [Hl|[]]; inversion Hl; exists (e_src e), (e_dst e); auto|destruct Hl]. }
     destruct Hcase as (u & v & Huv & ->).
     destruct (drivers_single u v Huv) as (dd & Hd & Hdn). destruct (readers_single u v Huv) as (rr & Hr & Hrn).
-    exists nt, dd, rr. cbn [fst snd]. split; [destruct Hnt as [-> | ->]; reflexivity|]. split; [exact Hd|]. split; [exact Hr|].
+    exists nt, dd, rr. cbn [fst snd]. split; [apply net_of_type_nt|]. split; [exact Hd|]. split; [exact Hr|].
     rewrite Hdn, Hrn. reflexivity.
   Qed.
 End ModelWire.
@@ -539,7 +550,7 @@ Definition links_typed (g : graph) (c : compiled) : Prop :=
     (is_router c u \/ exists x, In x (c_nis c) /\ cn_name x = u) /\ (is_router c v \/ exists x, In x (c_nis c) /\ cn_name x = v).
 
 Theorem hw_send_model (d : desc) (g : graph) (c : compiled) (ri : rinfo) (n : netlist) (t : cni) (id : Z) (nt : net) :
-  nt = Req \/ nt = Rsp ->
+  net_ok d nt ->
   build d = Ok g -> compile d g = Ok c -> gen_routing_info sp_reference c = Ok ri -> emit c ri = Ok n ->
   d_algo d = ID -> In t (c_nis c) -> id_num (cn_id t) = Ok id ->
   (forall u p, is_router c u -> sp_reference g u (cn_name t) = Some p -> forall x, In x (removelast p) -> is_router c x) ->
@@ -561,7 +572,7 @@ Proof.
 Qed.
 
 Theorem hw_src_send_model (d : desc) (g : graph) (c : compiled) (ri : rinfo) (n : netlist) (t : cni) (nt : net) :
-  nt = Req \/ nt = Rsp ->
+  net_ok d nt ->
   build d = Ok g -> compile d g = Ok c -> gen_routing_info sp_reference c = Ok ri -> emit c ri = Ok n ->
   d_algo d = SRC -> In t (c_nis c) ->
   names_sep g nt -> single_attach g c -> links_typed g c ->
@@ -634,7 +645,7 @@ Qed.
 
 (* the hardware-level theorems with every hypothesis in decidable form *)
 Theorem hw_send_decidable (d : desc) (g : graph) (c : compiled) (ri : rinfo) (n : netlist) (t : cni) (id : Z) (nt : net) :
-  nt = Req \/ nt = Rsp ->
+  net_ok d nt ->
   build d = Ok g -> compile d g = Ok c -> gen_routing_info sp_reference c = Ok ri -> emit c ri = Ok n ->
   d_algo d = ID -> In t (c_nis c) -> id_num (cn_id t) = Ok id ->
   transitb sp_reference c t = true ->
